@@ -36,7 +36,7 @@ pub enum UncatchableError {
 }
 
 //@ lift air/src/execution_step/instructions/call/verifier.rs :: fn verify_call
-//@ props C14
+//@ props C14 C17
 //@ ret r
 //@ rewrite 1 "format!(\"{expected_tetraplet:?}\")" => "opaque_string()"
 //@ rewrite 1 "format!(\"{stored_tetraplet:?}\")" => "opaque_string()"
